@@ -37,6 +37,12 @@ func newBuild(spec *common.Spec, opts chain.GenesisOpts) (*Build, *chain.Chain, 
 
 // grow runs scenario steps on c and records every block produced.
 func (b *Build) grow(c *chain.Chain, branch string, steps []chain.StepPlan) error {
+	return b.growUntil(c, branch, steps, nil)
+}
+
+// growUntil is grow with one scenario runner (one attestation pool) that stops after the first
+// step for which stop() holds.
+func (b *Build) growUntil(c *chain.Chain, branch string, steps []chain.StepPlan, stop func() bool) error {
 	sc := chain.NewScenario(c)
 	sc.KeepStates = false
 	for _, st := range steps {
@@ -47,6 +53,9 @@ func (b *Build) grow(c *chain.Chain, branch string, steps []chain.StepPlan) erro
 		}
 		if len(c.Blocks) > n {
 			b.items = append(b.items, item{env: c.Blocks[len(c.Blocks)-1], post: c.StateCtx.Copy(false), branch: branch})
+		}
+		if stop != nil && stop() {
+			break
 		}
 	}
 	b.tips[branch] = c
@@ -111,10 +120,11 @@ type Scen struct {
 	Name  string
 	B     *Build
 	V     *View
-	Now   time.Duration // default clock: 2 s into the view's tip slot
-	Stale *Block        // tip of a branch that forked before the finalized checkpoint (nil if none)
-	Side  *Block        // tip of a non-canonical branch inside the finalized subtree (nil if none)
-	Big   bool          // aggregator selection is selective here
+	Now   time.Duration   // default clock: 2 s into the view's tip slot
+	Stale *Block          // tip of a branch that forked before the finalized checkpoint (nil if none)
+	Side  *Block          // tip of a non-canonical branch inside the finalized subtree (nil if none)
+	Big   bool            // aggregator selection is selective here
+	Only  map[string]bool // if set: the topics whose catalogue runs on this view
 }
 
 func newScen(name string, b *Build, v *View) *Scen {
@@ -303,4 +313,52 @@ func buildLate(length common.Slot) (*Build, error) {
 func keepAll(item) bool { return true }
 func keepUpTo(s common.Slot) func(item) bool {
 	return func(it item) bool { return it.env.Slot <= s }
+}
+
+// gapfin: S4 (2 slots per epoch), honest chain with attestations in which slot 6 - the start of
+// epoch 3 - stays empty, grown until epoch 3 is finalized: the finalized checkpoint is
+// (3, block of slot 5) and its start slot 6 holds no block, so a block built on the finalized
+// root AT the finalized start slot descends from the finalized checkpoint and fails only
+// "slot > finalized slot". A stale branch forks at slot 2.
+func buildGapfin() (*Build, common.Slot, error) {
+	spec := chain.NewSpec(chain.PresetS4, chain.Phase0Only)
+	b, c, err := newBuild(spec, chain.GenesisOpts{Validators: 8})
+	if err != nil {
+		return nil, 0, err
+	}
+	skip := map[common.Slot]bool{6: true}
+	if err := b.grow(c, "main", honestSteps(1, 2, skip, nil)); err != nil {
+		return nil, 0, err
+	}
+	stale := c.Copy()
+	g := graffiti(4)
+	if err := b.grow(stale, "stale", []chain.StepPlan{{Slot: 3, Seed: 303, NoAttest: true, Block: &chain.BlockPlan{Graffiti: g}}}); err != nil {
+		return nil, 0, err
+	}
+	if err := b.growUntil(c, "main", honestSteps(3, 30, skip, nil), func() bool {
+		_, _, fin := c.Justified()
+		return fin.Epoch >= 3
+	}); err != nil {
+		return nil, 0, err
+	}
+	if _, _, fin := c.Justified(); fin.Epoch == 3 {
+		return b, c.Slot(), nil
+	}
+	return nil, 0, fmt.Errorf("gapfin: epoch 3 was never the finalized epoch")
+}
+
+// forkedge: S4 with the altair upgrade at epoch 2 and NO attestations or slashings on chain, so
+// the chain can be built even by a tree whose indexed-attestation validation is wrong across a
+// fork boundary; the head (epoch 3) is past the boundary, operations dated epoch 1 are before it.
+func buildForkedge() (*Build, error) {
+	spec := chain.NewSpec(chain.PresetS4, chain.Forks(2, chain.FarFuture, chain.FarFuture, chain.FarFuture))
+	b, c, err := newBuild(spec, chain.GenesisOpts{Validators: 8})
+	if err != nil {
+		return nil, err
+	}
+	noAtt := func(st *chain.StepPlan) { st.NoAttest = true; st.HoldAttestations = true }
+	if err := b.grow(c, "main", honestSteps(1, 7, nil, noAtt)); err != nil {
+		return nil, err
+	}
+	return b, nil
 }
